@@ -471,16 +471,16 @@ Definition catalogue : list cat_entry := [
   mkentry "MathFirstTrailingBit" "i32" [KInt] t_MathFirstTrailingBit_i32 h_MathFirstTrailingBit_i32 (fun _ => true) (Some (fun zs => VI32 (first_trailing_bit (nthz zs 0)))) Proved;
   mkentry "MathCountLeadingZeros" "i32" [KInt] t_MathCountLeadingZeros_i32 h_MathCountLeadingZeros_i32 (fun _ => true) (Some (fun zs => VI32 (count_leading_zeros (nthz zs 0)))) Refuted;
   mkentry "MathCountTrailingZeros" "i32" [KInt] t_MathCountTrailingZeros_i32 h_MathCountTrailingZeros_i32 (fun _ => true) (Some (fun zs => VI32 (count_trailing_zeros (nthz zs 0)))) Refuted;
-  mkentry "MathExtractBits" "i32" [KInt; KUint; KUint] t_MathExtractBits_i32 h_MathExtractBits_i32 (fun _ => true) (Some (fun zs => VI32 (extract_bits_i32 (nthz zs 0) (nthz zs 1) (nthz zs 2)))) Validated;
-  mkentry "MathInsertBits" "i32" [KInt; KInt; KUint; KUint] t_MathInsertBits_i32 h_MathInsertBits_i32 (fun _ => true) (Some (fun zs => VI32 (insert_bits (nthz zs 0) (nthz zs 1) (nthz zs 2) (nthz zs 3)))) Validated;
+  mkentry "MathExtractBits" "i32" [KInt; KUint; KUint] t_MathExtractBits_i32 h_MathExtractBits_i32 (fun _ => true) (Some (fun zs => VI32 (extract_bits_i32 (nthz zs 0) (nthz zs 1) (nthz zs 2)))) Proved;
+  mkentry "MathInsertBits" "i32" [KInt; KInt; KUint; KUint] t_MathInsertBits_i32 h_MathInsertBits_i32 (fun _ => true) (Some (fun zs => VI32 (insert_bits (nthz zs 0) (nthz zs 1) (nthz zs 2) (nthz zs 3)))) Proved;
   mkentry "MathCountOneBits" "u32" [KUint] t_MathCountOneBits_u32 h_MathCountOneBits_u32 (fun _ => true) (Some (fun zs => VU32 (count_one_bits (nthz zs 0)))) Proved;
   mkentry "MathReverseBits" "u32" [KUint] t_MathReverseBits_u32 h_MathReverseBits_u32 (fun _ => true) (Some (fun zs => VU32 (reverse_bits (nthz zs 0)))) Proved;
   mkentry "MathFirstLeadingBit" "u32" [KUint] t_MathFirstLeadingBit_u32 h_MathFirstLeadingBit_u32 (fun _ => true) (Some (fun zs => VU32 (first_leading_bit_u32 (nthz zs 0)))) Proved;
   mkentry "MathFirstTrailingBit" "u32" [KUint] t_MathFirstTrailingBit_u32 h_MathFirstTrailingBit_u32 (fun _ => true) (Some (fun zs => VU32 (first_trailing_bit (nthz zs 0)))) Proved;
   mkentry "MathCountLeadingZeros" "u32" [KUint] t_MathCountLeadingZeros_u32 h_MathCountLeadingZeros_u32 (fun _ => true) (Some (fun zs => VU32 (count_leading_zeros (nthz zs 0)))) Refuted;
   mkentry "MathCountTrailingZeros" "u32" [KUint] t_MathCountTrailingZeros_u32 h_MathCountTrailingZeros_u32 (fun _ => true) (Some (fun zs => VU32 (count_trailing_zeros (nthz zs 0)))) Refuted;
-  mkentry "MathExtractBits" "u32" [KUint; KUint; KUint] t_MathExtractBits_u32 h_MathExtractBits_u32 (fun _ => true) (Some (fun zs => VU32 (extract_bits_u32 (nthz zs 0) (nthz zs 1) (nthz zs 2)))) Validated;
-  mkentry "MathInsertBits" "u32" [KUint; KUint; KUint; KUint] t_MathInsertBits_u32 h_MathInsertBits_u32 (fun _ => true) (Some (fun zs => VU32 (insert_bits (nthz zs 0) (nthz zs 1) (nthz zs 2) (nthz zs 3)))) Validated;
+  mkentry "MathExtractBits" "u32" [KUint; KUint; KUint] t_MathExtractBits_u32 h_MathExtractBits_u32 (fun _ => true) (Some (fun zs => VU32 (extract_bits_u32 (nthz zs 0) (nthz zs 1) (nthz zs 2)))) Proved;
+  mkentry "MathInsertBits" "u32" [KUint; KUint; KUint; KUint] t_MathInsertBits_u32 h_MathInsertBits_u32 (fun _ => true) (Some (fun zs => VU32 (insert_bits (nthz zs 0) (nthz zs 1) (nthz zs 2) (nthz zs 3)))) Proved;
   mkentry "MathFloor" "f32" [KFloat] t_MathFloor_f32 h_MathFloor_f32 (fun _ => true) (Some (fun zs => VF32 (ffloor (nthz zs 0)))) Proved;
   mkentry "MathCeil" "f32" [KFloat] t_MathCeil_f32 h_MathCeil_f32 (fun _ => true) (Some (fun zs => VF32 (fceil (nthz zs 0)))) Proved;
   mkentry "MathTrunc" "f32" [KFloat] t_MathTrunc_f32 h_MathTrunc_f32 (fun _ => true) (Some (fun zs => VF32 (ftrunc (nthz zs 0)))) Proved;
